@@ -47,7 +47,7 @@ EXPECTED_PROBES = ["two_pass_kernel", "retry_after_alloc_error_pass1", "retry_af
                    "submask_used", "batch_size_1", "batch_nondivisor", "alias_name_used",
                    "upsampling_gt1", "filter_used", "linearity_checked", "recombination_checked",
                    "parallax_zero_aberration", "parallax_defocus_shift", "fractional_aperture_weight",
-                   "parallax_with_rotation"]
+                   "parallax_with_rotation", "override_used"]
 
 KERNELS = {"ssb": ["ssb", "single-sideband", "acbf", "aberration-corrected-bright-field"],
            "obf": ["obf", "optimum-bright-field"], "mf": ["mf", "matched-filter"],
@@ -112,6 +112,10 @@ def gen(rng: Rng, tier, i):
                 "submask": r.randrange(10 ** 6) if r.chance(0.3) else None}
         if r.chance(0.35):
             call["fault"] = {"pass": r.pick([0, 0, 1]), "after": r.randrange(0, 40)}
+        if r.chance(0.2):
+            call["override_ab"] = r.pick([{"C10": 30.0}, {"C10": -60.0, "C12": 25.0, "phi12": 0.4}, {}])
+        if r.chance(0.15):
+            call["override_rot"] = r.pick([0.0, 0.5, -0.7])
         plan["calls"].append(call)
     if rng.chance(0.5):
         plan["linearity"] = {"alpha": round(rng.uniform(-2, 2), 2), "beta": round(rng.uniform(-2, 2), 2),
@@ -190,6 +194,12 @@ def run(plan):
               "parallax_flip_phase": call.get("flip", True)}
         if m is not None:
             kw["bf_mask"] = torch.as_tensor(m)
+        if call.get("override_ab") is not None:
+            kw["override_aberration_coefs"] = dict(call["override_ab"])
+            bump(probes, "override_used")
+        if call.get("override_rot") is not None:
+            kw["override_rotation_angle"] = call["override_rot"]
+            bump(probes, "override_used")
         return kw
 
     def canon(name):
